@@ -92,7 +92,7 @@ fn judge(case_no: usize, rec: &Rec, base: NaiveDate, txs: &[Transaction], res: &
                     cx.push("C11", "refusal_not_s122", format!("unabsorbable capital return refused without citing s122: {msg}"), json!({"message": msg}));
                 }
                 cnt.inc("unabsorbable_refused");
-            } else if s122 && rec.has_capreturn() {
+            } else if s122 && rec.has_capreturn() && !rec.exact {
                 // the statement is one-directional: a return the pool could absorb may still be refused
                 cnt.inc("absorbable_return_refused_allowed");
             } else if rec.status == "ok" {
@@ -141,7 +141,8 @@ fn judge(case_no: usize, rec: &Rec, base: NaiveDate, txs: &[Transaction], res: &
 fn judge_report(cx: &mut Ctx, report: &TaxReport, cnt: &mut Counters) {
     let rec = cx.rec;
     let base = cx.base;
-    let events = rec.has_events();
+    // with the implementation-shaped model the apportionment is determined, so costs are comparable
+    let events = rec.has_events() && !rec.exact;
     // ---- expected disposals
     let mut exp: BTreeMap<(String, usize), Vec<&Leg>> = BTreeMap::new();
     for l in &rec.legs {
@@ -507,7 +508,57 @@ fn main() {
                 if best.as_ref().map(|b| f.len() < b.len()).unwrap_or(true) { best = Some(f); }
             }
             let mut f = best.unwrap_or_default();
+            // the implementation-shaped model fixes the per-lot spread of every cost event: compare it with the hooks
+            if rec0.exact && rec0.has_events() && matches!(res, Ok(Ok(_))) {
+                let n = rec0.n();
+                let didx: HashMap<NaiveDate, usize> = (1..=n).map(|d| (date_of(rec0, r.base, d), d)).collect();
+                let mut obs = vec![vec![Decimal::ZERO; n]; n];
+                for e in events.iter().filter(|e| e.kind == "CostEvent") {
+                    if let Some(ed) = didx.get(&e.date) {
+                        for (ld, delta) in &e.lots { if let Some(a) = didx.get(ld) { obs[*ed - 1][*a - 1] += *delta; } }
+                    }
+                }
+                if let Some(want) = rec0.dist.first() {
+                    'outer: for e in 0..n { for a in 0..n {
+                        if !want[e][a].close_to(obs[e][a], tol()) {
+                            f.push(Finding { prop: "C11".into(), kind: "apportionment_differs".into(), case: case_no,
+                                detail: format!("cost event of day#{} puts {} on the acquisition of day#{}; the matcher model (Matcher.tla) puts {}", e + 1, obs[e][a], a + 1, want[e][a].show()),
+                                input: to_dsl(&txs), data: json!({}) });
+                            break 'outer;
+                        }
+                    } }
+                }
+            }
             let plain = r.order == Order::Canonical && r.fills == Fills::One && !r.dividends;
+            // C11 "spread only over shares already held": a disposal made, and matched to acquisitions made, before the
+            // security's first cost event is the same with the events deleted (implementation vs implementation)
+            if plain && r.base == bases[0] && rec0.has_events() {
+                if let Ok(Ok(rep)) = &res {
+                    let mut bare = rec0.clone();
+                    for sec in bare.ledger.iter_mut() { for c in sec.iter_mut() { c.7 = Rat::ZERO; c.8 = Rat::ZERO; c.9 = Rat::ZERO; } }
+                    let t3 = render(&bare, &r);
+                    let res2: Res = guarded(move || calculate(&t3, None, None, cfg).map_err(|e| e.to_string()));
+                    if let Ok(Ok(rep2)) = &res2 {
+                        let (a, b) = (summarize(rep, None), summarize(rep2, None));
+                        cnt.inc("earlier_disposal_comparisons");
+                        'disp: for ((ticker, date), d) in &a.disposals {
+                            let Some(si) = rec0.sec_index(ticker) else { continue };
+                            let first = (1..=rec0.n()).filter(|k| { let c = &rec0.ledger[si][k - 1]; !c.ac().is_zero() || !c.cr().is_zero() })
+                                .map(|k| date_of(rec0, r.base, k)).min();
+                            let Some(first) = first else { continue };
+                            if *date >= first || d.legs.keys().any(|(_, acq)| acq.map(|x| x >= first).unwrap_or(false)) { continue; }
+                            if let Some(d2) = b.disposals.get(&(ticker.clone(), *date)) {
+                                if (d.cost - d2.cost).abs() > tol() {
+                                    f.push(Finding { prop: "C11".into(), kind: "event_changes_earlier_disposal".into(), case: case_no,
+                                        detail: format!("the disposal of {ticker} on {date}, matched entirely to acquisitions before the first cost event ({first}), has allowable cost {} with the events and {} without them", d.cost.normalize(), d2.cost.normalize()),
+                                        input: to_dsl(&txs), data: json!({"first_event": first.to_string()}) });
+                                    break 'disp;
+                                }
+                            }
+                        }
+                    }
+                }
+            }
             // observation for the TLC pass: canonical rendering of event ledgers, one per timing reading
             if want_obs && plain && r.base == bases[0] && rec0.has_events() && rec0.status != "refused" {
                 let mut seen = Vec::new();
@@ -529,7 +580,7 @@ fn main() {
                     None => canon = Some((status, sum)),
                     Some((s0, sum0)) => {
                         cnt.inc("variant_comparisons");
-                        let prop = if r.dividends { "C11" } else { "C06" };
+                        let prop = if r.dividends || r.fills == Fills::EventsSplit { "C11" } else { "C06" };
                         if *s0 != status {
                             f.push(Finding { prop: prop.into(), kind: "variant_status".into(), case: case_no,
                                 detail: format!("canonical rendering gives {s0}, rendering {:?}/{:?} gives {status}", r.order, r.fills),
